@@ -828,6 +828,29 @@ def chain_unit(ctx, u, G, rng, n):
                                                                  f"merged impl {str(mer)[:100]} model {str(outs[j])[:100]}; slice [{lo}:{hi}]",
                               case=jcase(spec, m, x, c), found_input=bool(errs), unit=u.name, broken="chain-unit / C08_merge_chains_same / C08_chain_slice_same",
                               reproducer=REPRO)
+        # stepped slices (definition: Chain of list(chain)[lo:hi:step], python slice semantics incl. negative steps)
+        jnp = f["jnp"]
+        long = fb.Chain([*b.bijections, *[fb.Loc(jnp.full(tuple(b.shape), float(k + 1))) for k in range(3)]])
+        for tgt in (b, long):
+            kids = list(tgt.bijections)
+            for _ in range(2):
+                st = [2, -1, 3, -2, 1][G.ri(0, 4)]
+                lo2 = [None, 0, 1, -1, len(kids) - 1][G.ri(0, 4)]
+                hi2 = [None, len(kids), -1, 0, 2][G.ri(0, 4)]
+                want = kids[lo2:hi2:st]
+                u.count(term + f"[{lo2}:{hi2}:{st}]" + str(len(kids)), nontrivial=st != 1 and len(want) > 0, tag="slice-step")
+                try:
+                    got = tgt[lo2:hi2:st]
+                except Exception as e:  # noqa: BLE001
+                    if want:  # only the empty chain may be refused
+                        ctx.violation(sig="chain:slice-step:raised", what=f"chain[{lo2}:{hi2}:{st}] of a {len(kids)}-layer Chain raised {type(e).__name__} "
+                                      f"but list(chain)[{lo2}:{hi2}:{st}] has {len(want)} layers", case=jcase(spec, "transform", x, c), found_input=True,
+                                      unit=u.name, broken="chain-unit (stepped slice)", reproducer=REPRO)
+                    continue
+                if len(got.bijections) != len(want) or any(g_ is not w_ for g_, w_ in zip(got.bijections, want)):
+                    ctx.violation(sig="chain:slice-step", what=f"chain[{lo2}:{hi2}:{st}] of a {len(kids)}-layer Chain has {len(got.bijections)} layers, "
+                                  f"list(chain)[{lo2}:{hi2}:{st}] has {len(want)} (or different ones): the sliced Chain computes a different function",
+                                  case=jcase(spec, "transform", x, c), found_input=True, unit=u.name, broken="chain-unit (stepped slice)", reproducer=REPRO)
         # composition: chain[:i] then chain[i:] is the chain (forward direction)
         if n_kids >= 2:
             i0 = G.ri(1, n_kids - 1)
